@@ -60,7 +60,8 @@ Print Assumptions C02_old_lower_bound_complete_of_strict_invariant.
    chunk and/or opens new ones), in which no write follows an index loss before a sync or read, and for
    every range (either bound may be omitted): RANGE = filter of the full scan.  Batch sizes, chunk sizes,
    equal-timestamp runs, zeros, negative values, int64 extremes, failed TryLocks, sparse skips, big gaps,
-   rebuilds, syncs and index losses are all arbitrary. ---- *)
+   rebuilds, syncs, index losses, clean restarts (index saved and loaded) and describes (forced rebuild
+   requests) are all arbitrary. ---- *)
 Definition C02_complete_partial_statement (v : variant) : Prop :=
   forall hist o1 o2, Forall op_ok hist -> op_ok (HRead o1 o2) ->
     hist_sorted hist -> hist_disciplined hist -> hist_small hist -> no_write_after_drop hist ->
@@ -147,6 +148,26 @@ Example C02_continued_selector_nonvacuous :
     = [Some (mkst 9 max_uint32 15)].
 Proof. exact lazy_wit_nonvac. Qed.
 
+(* ---- anything but an index loss between the reads of one selector: write batches, rebuilder runs, SyncChunks, other
+   reads, clean restarts, describes. A cached window may then differ from the window a fresh selector would compute
+   (the index was rebuilt in between and the chunk's record count did not change), but it is still COMPLETE: for every
+   history under the hypotheses of C02_complete_partial that does not end in an unsynchronised index loss, and every
+   session of reads of one selector with such sub-histories in between, at every read every chunk has a window for
+   all of its records that contains every position whose timestamp is in the range. ---- *)
+Theorem C02_continued_selector_complete : forall t1 t2 hist0 hs,
+  Forall op_ok (hist0 ++ concat hs) -> hist_sorted (hist0 ++ concat hs) -> hist_disciplined (hist0 ++ concat hs) ->
+  hist_small (hist0 ++ concat hs) -> no_write_after_drop hist0 -> ends_synced hist0 -> Forall no_drop (concat hs) ->
+  session_complete impl_variant t1 t2 (run impl_variant hist0) [] hs.
+Proof. exact continued_selector_complete. Qed.
+Print Assumptions C02_continued_selector_complete.
+
+(* non-vacuity: two chunks, an index loss and a sync before the selector is created; between its reads a describe
+   (forced rebuild requests), a rebuilder run, a restart and a read by someone else; then a batch and a rebuilder run *)
+Example C02_continued_selector_complete_nonvacuous :
+  Forall op_ok (sess_hist0 ++ concat sess_hs) /\ hist_sorted (sess_hist0 ++ concat sess_hs) /\ hist_disciplined (sess_hist0 ++ concat sess_hs) /\
+  hist_small (sess_hist0 ++ concat sess_hs) /\ no_write_after_drop sess_hist0 /\ ends_synced sess_hist0 /\ Forall no_drop (concat sess_hs).
+Proof. exact sess_nonvac. Qed.
+
 (* ---- the multi-level block tree (model/TmTreeML.v, compared with real ckindex trees of up to 3 levels on every
    run) has the three properties of the flat record list that the proofs above use: on a well-formed tree of ANY
    level grEq answers with a record of the tree whose timestamp is <= t, less with one whose timestamp is > t,
@@ -167,7 +188,8 @@ Print Assumptions C02_tree_add_in_order.
 
 (* non-vacuity: a history satisfying all hypotheses of C02_complete_partial: two chunks, a batch that starts
    with timestamp 0, equal-timestamp runs across sparse-index points, a failed TryLock, a batch split over a
-   chunk roll-over, an index loss followed by a sync, a read and a rebuild, then a further indexed write *)
+   chunk roll-over, a clean restart, an index loss followed by a sync, a read, a describe (forced rebuild requests) and a
+   rebuild, a second restart, then a further indexed write *)
 Example C02_nonvacuous : hist_sorted nonvac_hist /\ hist_disciplined nonvac_hist /\ no_write_after_drop nonvac_hist /\
   length (fst (range_read impl_variant (run impl_variant nonvac_hist) (Some 0) (Some 20))) = 1006%nat.
 Proof. exact nonvac_ok. Qed.
